@@ -200,8 +200,11 @@ func (si *StrideInfo) LoopFootprints() []Footprint {
 						// offsets handed to other kernels (internal.Equal(ring, i, ring, j))
 						if callee := x.Common().StaticCallee(); callee != nil {
 							for i, prm := range callee.Params {
-								if i < len(x.Common().Args) && isIntT(prm.Type()) && alignedParamName(prm.Name()) {
-									visit(x.Common().Args[i])
+								if i < len(x.Common().Args) && isIntT(prm.Type()) {
+									csi := si.All[callee]
+									if alignedParamName(prm.Name()) || (csi != nil && csi.CoordBaseParam(prm)) {
+										visit(x.Common().Args[i])
+									}
 								}
 							}
 						}
